@@ -192,13 +192,13 @@ def dealing_pending(st: Any) -> bool:
 def h_deal(ctx: Any, code: str, n: int, sym_decisions: int = 2, manual: str = 'counts', boards: int = 1,
            stacks: Any = None, streets: str = '', explicit: bool = False, deck: str = 'identity',
            mode: str = 'T', draw_masks: bool = True, which: str = 'both', mask_budget: int = 3,
-           fixed_mask: int = 0, count_budget: int = 4) -> None:
+           fixed_mask: int = 0, count_budget: int = 4, partial_show: bool = False) -> None:
     C.native_hands()
     C.set_deck_order(deck)
     warnings.simplefilter('error' if explicit else 'ignore')
     dealing = (Automation.CARD_BURNING, Automation.HOLE_DEALING, Automation.BOARD_DEALING)
     autos = tuple(a for a in Automation if manual == 'auto' or a not in dealing)
-    if explicit:
+    if explicit or partial_show:
         autos = tuple(a for a in autos if a != Automation.HOLE_CARDS_SHOWING_OR_MUCKING)
     cfg: dict = dict(n=n, stacks=tuple(stacks or (200,) * n), automations=autos, antes=1,
                      mode=Mode.TOURNAMENT if mode == 'T' else Mode.CASH_GAME, starting_board_count=boards)
@@ -284,6 +284,18 @@ def h_deal(ctx: Any, code: str, n: int, sym_decisions: int = 2, manual: str = 'c
                 continue
             if dm.street is not None:
                 dm.end(st)
+            if partial_show and st.showdown_index is not None:
+                i = st.showdown_index
+                k = ctx.choice(f'show{guard}', 3)
+                part = tuple(st.hole_cards[i][-1:])
+                if k == 1 and st.can_show_or_muck_hole_cards(part):
+                    C.call(ctx, st.show_or_muck_hole_cards, part)       # partial show (cash game, not final street)
+                    ctx.cover('partial-show')
+                elif k == 2:
+                    C.call(ctx, st.show_or_muck_hole_cards, True)
+                else:
+                    C.call(ctx, st.show_or_muck_hole_cards)
+                continue
             if explicit and st.showdown_index is not None:
                 i = st.showdown_index
                 if all(bool(c) for c in st.hole_cards[i]):
@@ -347,6 +359,8 @@ JOBS = [
     ('F7S/n8/exhaustion', dict(code='F7S', n=8, sym_decisions=2, manual='auto', draw_masks=False)),
     ('FR/n8/exhaustion/one-by-one', dict(code='FR', n=8, sym_decisions=1, manual='one')),
     ('mixed-draw/n2', dict(code='NT', n=2, sym_decisions=1, manual='one', streets='mixed-draw')),
+    ('NT/n2/allin/partial-show', dict(code='NT', n=2, sym_decisions=0, manual='one', stacks=(3, 3), mode='C',
+                                      partial_show=True)),
     ('NT/n2/explicit', dict(code='NT', n=2, sym_decisions=0, manual='one', explicit=True, mode='C')),
 ]
 
@@ -358,6 +372,8 @@ def _jobs(tier: str, which: str) -> list[dict]:
         if which == 'deal' and p.get('explicit'):
             continue
         cover = ['done']
+        if 'partial-show' in name:
+            cover.append('partial-show')
         if 'exhaustion' in name:
             cover.append('replenished' if which == 'cards' else ('fallback' if 'n8' in name else 'draw'))
         out.append(dict(name=name, module='harness.c06', fn='h_deal', traced=False,
